@@ -303,7 +303,8 @@ Definition lmon_delete (c : lcase) : bool :=
     end) (with_prev [] (l_steps c)).
 
 (* monitor 3: what Get hands out are FRESH rows of the table with their fields; afterwards they
-   are CLAIMED, nothing else changed; Reset only changes the status of that id *)
+   are CLAIMED, nothing else changed; Reset only changes the status of that id; opening the
+   queue again makes exactly the CLAIMED rows FRESH *)
 Definition lmon_get (c : lcase) : bool :=
   forallb (fun '(prev, s) =>
     match ls_op s with
@@ -318,7 +319,10 @@ Definition lmon_get (c : lcase) : bool :=
         list_eqb row_eqb
              (map (fun r => if bytes_eqb (r_id r) i then Row (r_id r) (r_value r) (r_via r) (r_hops r) FRESH else r) prev)
              (ls_table s)
-    | OReopen => list_eqb row_eqb prev (ls_table s)
+    | OReopen =>
+        list_eqb row_eqb
+             (map (fun r => if status_eqb (r_status r) CLAIMED then Row (r_id r) (r_value r) (r_via r) (r_hops r) FRESH else r) prev)
+             (ls_table s)
     | _ => true
     end) (with_prev [] (l_steps c)).
 
